@@ -89,6 +89,8 @@ def runOp (st : St) (op : List String) : Option St :=
   | ["remove", sid] =>
     if !goodName sid || sid.length < 4 then none else
     some (emit { st with w := step st.w (.remove (nameBytes sid)) } "ok")
+  | ["crc", h] =>
+    (parseHex h).map fun d => emit st (if tableCrc 0 d == crc32 d then toString (crc32 d) else "table-crc-differs")
   | ["gc"] => some (emit { st with w := step st.w .gc } "ok")
   | ["ls"] =>
     let ents := st.names.filterMap fun n => (st.w.dir (nameBytes n)).map fun f => s!"{n}:{toHex f}"
